@@ -34,7 +34,10 @@ def go_type(g):
 
 
 def go_field(f):
-    tag = ' `parquet:"%s"`' % f["tag"] if f["tag"] is not None else ""
+    # other keys of the struct tag (json, xml, ...) before / after the parquet key: they do not concern parquetgen
+    pre, post = f.get("tagprefix", ""), f.get("tagsuffix", "")
+    inner = pre + ('parquet:"%s"' % f["tag"] if f["tag"] is not None else "") + post
+    tag = " `%s`" % inner.strip() if inner.strip() else ""
     return "%s %s%s" % (", ".join(f["names"]), go_type(f["type"]), tag) if f["names"] else "%s%s" % (go_type(f["type"]), tag)
 
 
@@ -116,6 +119,10 @@ EXCLUDED_FORMS = [
     {"names": ["Sl"], "type": ("s", ("b", "string")), "tag": "-"},
     {"names": ["If"], "type": ("i",), "tag": "-"},
     {"names": ["lower"], "type": ("s", ("p", ("b", "float64"))), "tag": "x"},
+    # the dash tag next to other keys of the struct tag
+    {"names": ["Secret"], "type": ("b", "string"), "tag": "-", "tagprefix": 'json:"-" '},
+    {"names": ["Pw"], "type": ("p", ("b", "string")), "tag": "-", "tagprefix": 'json:"password,omitempty" ', "tagsuffix": ' xml:"pw,attr"'},
+    {"names": ["Note"], "type": ("s", ("b", "int64")), "tag": "-", "tagsuffix": ' json:"note"'},
     # an embedded struct that is itself excluded by the dash tag (its declaration is added with it)
     {"names": [], "type": ("b", "Audit"), "tag": "-",
      "extra_decls": [("Audit", [{"names": ["Who"], "type": ("b", "string"), "tag": None}, {"names": ["Rev"], "type": ("b", "int32"), "tag": None}])]},
@@ -164,3 +171,15 @@ def embed_reuse(decls, tname, i, k):
                     out.append((n, f))
             return out
     return None
+
+
+def with_other_tag_keys(decls):
+    """every field gets other struct-tag keys around its parquet key (or instead of it when it has none)"""
+    out = []
+    for n, fs in copy.deepcopy(decls):
+        for k, f in enumerate(fs):
+            if f["names"]:
+                f["tagprefix"] = 'json:"%s,omitempty" ' % f["names"][0].lower() if k % 2 == 0 else 'db:"c%d" ' % k
+                f["tagsuffix"] = ' xml:"%s"' % f["names"][0] if k % 3 == 0 else ""
+        out.append((n, fs))
+    return out
